@@ -231,7 +231,8 @@ Section Views.
     (zlookup b (outs_at (S k) a) = Some (T k a b) \/
      (zlookup b (outs_at (S k) a) = None /\ exists c, zlookup b (prev_at k a) = Some (T k a b, c))).
   Proof.
-    induction k as [|k IH]; intros a b Hb; destruct (round_nf k a) as [_ [Hp Ho]]; rewrite Hp, Ho.
+    induction k as [|k IH]; intros a b Hb;
+      [destruct (round_nf 0 a) as [_ [Hp Ho]] | destruct (round_nf (S k) a) as [_ [Hp Ho]]]; rewrite Hp, Ho.
     - eapply (emit_all_spec P (dampon a) (T 0 a) (nbrs G a) Hstab Hdamp); eauto.
       + intros y _. apply comp_table_canon.
       + apply (maxsum_graph_ok_l G Hwf).
@@ -259,8 +260,8 @@ Section Views.
       + rewrite Ho. reflexivity.
       + rewrite prev_at_0 in Hc. discriminate.
     - destruct (round_spec (S k) a b Hb) as [_ [Ho|[Ho [c Hc]]]]; rewrite Ho; [reflexivity|].
-      destruct (round_spec k a b Hb) as [[c' Hc'] _]. rewrite Hc' in Hc. inversion Hc as [[E]].
-      rewrite <- E. now apply IH.
+      destruct (round_spec k a b Hb) as [[c' Hc'] _]. rewrite Hc' in Hc. injection Hc as E1 E2.
+      rewrite <- E1. now apply IH.
   Qed.
 
   Lemma view_0 a b : In b (nbrs G a) -> zlookup a (costs_at 0 b) = zlookup b (snd (ms_init P G a)).
